@@ -121,6 +121,14 @@ def check(repo: Repo, R) -> None:
         if isinstance(n, ast.If) and ast.unparse(n.test).replace('"', "'") == f"':' in {KEY}" and au.raises(n.body):
             # every ':'-join of the walker that involves the signal's name happens on the non-raising side of the guard
             g_sig = bool(sig_joins) and all(any(t is n.test and not pol for t, pol in path_conditions(fw.node, c)) for c in sig_joins)
+    # ... and the top-level ports, which enter the flat module under their own names whether connected or not
+    g_port = False
+    for lp_ in [n for n in au.walk_no_nested(ff.node) if isinstance(n, ast.For) and ast.unparse(n.iter) == "m.ports.values()"]:
+        pv = ast.unparse(lp_.target)
+        for c, _b in pat.find(f"new_module.add(copy.copy({pv}))", lp_):
+            g_port = shared.cond_match(ff.node, c, f"':' in {pv}.name", False, use_prov=False) and shared.fails_if(lp_, f"':' in {pv}.name") is not None
+    R.check(g_port, rule, key_of(ff, "separator-guard-ports"), ff.site, f"top-level port names are checked to contain no ':' before they enter the flat module: {g_port}",
+            why="a top-level port named `a:x` is merged with the internal net `x` of instance `a`: a floating internal net becomes a port")
     R.check(g_inst and g_sig, rule, key_of(fw, "separator-guard"), fw.site,
             f"every component joined by ':' is checked to contain no ':' — instance names: {g_inst}; signal names (before the path name is built): {g_sig}",
             why="a designer signal named `m:x` beside instance m with internal net x gets the same flattened name: the two nets are merged")
